@@ -11,12 +11,14 @@ environment, in both deterministic and nondeterministic mode."
 This file: the deterministic traversal `_visit` on finite trees (all shapes, the
 deep branch anywhere: the statement is in terms of `Json.depth`, a max over
 branches), and the nondeterministic traversal for EVERY choice script (`C18_nd_*`).
-Cyclic data is not a finite `Json` value: it is explored on the real code only.
+Self-referential data is not a finite `Json` value: `C18_graph_*` are about `Impl.G`, the same traversal on a
+heap of containers that may refer to each other (tied to the code by the random-heap stage of the check).
 -/
 import JPV.Props.Common
 import JPV.Proofs.Visit
 import JPV.Proofs.NonDet
 import JPV.Proofs.NonDetDepth
+import JPV.Proofs.Graph
 namespace JPV.Props
 open JPV
 
@@ -65,6 +67,24 @@ theorem C18_nd_find_raise (env : Impl.Env) (sels : List Selector) (rest : List S
 theorem C18_nd_complete (env : Impl.Env) (reg : Spec.Registry) (q : Query) (v : Json) (s : Impl.ND.Script)
     (hff : Spec.filterFree q = true) (hw : v.WF) (hd : (v.depth : Int) ≤ env.maxDepth) (h1 : 1 ≤ env.maxDepth) :
     ∃ r, Impl.ND.find env q v s = .ok r ∧ r.Perm (Spec.select reg q v) := Proofs.nd_find_perm env reg q v s hff hw hd h1
+
+/-- self-referential data, deterministic mode: whenever the start node lies on a cycle or reaches one, the
+traversal raises JSONPathRecursionError — for EVERY configured limit -/
+theorem C18_graph_cycle (h : Impl.G.Heap) (n m : Nat) (hnm : n = m ∨ Impl.G.Reach h n m) (hc : Impl.G.Reach h m m)
+    (max : Int) : (Impl.G.visitTop h max n).2 = some .recursion := Proofs.g_cycle_raises h n m hnm hc max
+
+/-- on any heap (cyclic or not) the traversal raises exactly when some path enters more containers than the limit
+allows, and otherwise completes: nothing else can happen -/
+theorem C18_graph_boundary (h : Impl.G.Heap) (rem : Nat) (loc : Loc) (n : Nat) :
+    ((Impl.G.visit h rem loc n).2 = some .recursion ↔ Impl.G.Chain h n rem) ∧
+    ((Impl.G.visit h rem loc n).2 = none ∨ (Impl.G.visit h rem loc n).2 = some .recursion) :=
+  ⟨Proofs.g_visit_raises_iff h rem loc n, Proofs.g_visit_outcomes h rem loc n⟩
+
+/-- bounded time and memory, whatever the shape of the data: with fan-out at most `B` the traversal produces at
+most 1 + B + … + B^(limit-1) nodes before it completes or raises — no hang, no unbounded growth -/
+theorem C18_graph_bounded (h : Impl.G.Heap) (B : Nat) (hB : ∀ m, (h.kids m).length ≤ B)
+    (rem : Nat) (loc : Loc) (n : Nat) : (Impl.G.visit h rem loc n).1.length ≤ Impl.G.geom B rem :=
+  Proofs.g_visit_bounded h B hB rem loc n
 
 example : (Impl.visit 2 1 [] (.arr [.arr [.arr []]])).2 = some .recursion := by decide
 example : (Impl.visit 3 1 [] (.arr [.arr [.arr []]])).2 = none := by decide
